@@ -20,8 +20,7 @@ Definition id := Z.
 Inductive hkind :=
 | KInline    (* run by the submitter, never counted in workRemaining_ *)
 | KLocal     (* tryFindAndExecuteWork: task(); ++localWorkDone, flushed later *)
-| KExec      (* executeNext: next(); workRemaining_.fetch_add(-1) *)
-| KDrain.    (* resizeLocked / ~ThreadPool ring drains: task() and NOTHING else *)
+| KExec.     (* executeNext / the ring and steal-ring drains of resizeLocked and ~ThreadPool: task(); workRemaining_ -= 1 *)
 
 (* per-frame obligation of a thread inside a submission function *)
 Inductive pc :=
@@ -66,8 +65,7 @@ Record state := ST {
   rz : rzs;
   nworkers : Z;                     (* live pool workers *)
   gens : list id;                   (* ghost: every id ever generated *)
-  done : list id;                   (* ghost: ids whose body returned (with multiplicity) *)
-  leaked : Z }.                     (* ghost: ring / steal-ring drain pops (tasks run without a decrement) *)
+  done : list id }.                 (* ghost: ids whose body returned (with multiplicity) *)
 
 (* ---------- total list access with default and padding ---------- *)
 Definition lget {A} (d : A) (i : nat) (l : list A) : A := nth i l d.
@@ -82,20 +80,19 @@ Fixpoint lset {A} (d : A) (i : nat) (x : A) (l : list A) : list A :=
 Definition getT (s : state) (t : nat) : thread := lget th0 t (threads s).
 Definition setT (s : state) (t : nat) (th : thread) : state :=
   ST (central s) (rings s) (steals s) (wr s) (numThreads s) (numRings s) (numSteal s) (lset th0 t th (threads s))
-     (rz s) (nworkers s) (gens s) (done s) (leaked s).
+     (rz s) (nworkers s) (gens s) (done s).
 
-Definition set_central (s : state) c := ST c (rings s) (steals s) (wr s) (numThreads s) (numRings s) (numSteal s) (threads s) (rz s) (nworkers s) (gens s) (done s) (leaked s).
-Definition set_rings (s : state) r := ST (central s) r (steals s) (wr s) (numThreads s) (numRings s) (numSteal s) (threads s) (rz s) (nworkers s) (gens s) (done s) (leaked s).
-Definition set_steals (s : state) r := ST (central s) (rings s) r (wr s) (numThreads s) (numRings s) (numSteal s) (threads s) (rz s) (nworkers s) (gens s) (done s) (leaked s).
-Definition set_wr (s : state) v := ST (central s) (rings s) (steals s) v (numThreads s) (numRings s) (numSteal s) (threads s) (rz s) (nworkers s) (gens s) (done s) (leaked s).
-Definition set_numThreads (s : state) v := ST (central s) (rings s) (steals s) (wr s) v (numRings s) (numSteal s) (threads s) (rz s) (nworkers s) (gens s) (done s) (leaked s).
-Definition set_numRings (s : state) v := ST (central s) (rings s) (steals s) (wr s) (numThreads s) v (numSteal s) (threads s) (rz s) (nworkers s) (gens s) (done s) (leaked s).
-Definition set_numSteal (s : state) v := ST (central s) (rings s) (steals s) (wr s) (numThreads s) (numRings s) v (threads s) (rz s) (nworkers s) (gens s) (done s) (leaked s).
-Definition set_rz (s : state) v := ST (central s) (rings s) (steals s) (wr s) (numThreads s) (numRings s) (numSteal s) (threads s) v (nworkers s) (gens s) (done s) (leaked s).
-Definition set_nworkers (s : state) v := ST (central s) (rings s) (steals s) (wr s) (numThreads s) (numRings s) (numSteal s) (threads s) (rz s) v (gens s) (done s) (leaked s).
-Definition set_gens (s : state) v := ST (central s) (rings s) (steals s) (wr s) (numThreads s) (numRings s) (numSteal s) (threads s) (rz s) (nworkers s) v (done s) (leaked s).
-Definition set_done (s : state) v := ST (central s) (rings s) (steals s) (wr s) (numThreads s) (numRings s) (numSteal s) (threads s) (rz s) (nworkers s) (gens s) v (leaked s).
-Definition set_leaked (s : state) v := ST (central s) (rings s) (steals s) (wr s) (numThreads s) (numRings s) (numSteal s) (threads s) (rz s) (nworkers s) (gens s) (done s) v.
+Definition set_central (s : state) c := ST c (rings s) (steals s) (wr s) (numThreads s) (numRings s) (numSteal s) (threads s) (rz s) (nworkers s) (gens s) (done s).
+Definition set_rings (s : state) r := ST (central s) r (steals s) (wr s) (numThreads s) (numRings s) (numSteal s) (threads s) (rz s) (nworkers s) (gens s) (done s).
+Definition set_steals (s : state) r := ST (central s) (rings s) r (wr s) (numThreads s) (numRings s) (numSteal s) (threads s) (rz s) (nworkers s) (gens s) (done s).
+Definition set_wr (s : state) v := ST (central s) (rings s) (steals s) v (numThreads s) (numRings s) (numSteal s) (threads s) (rz s) (nworkers s) (gens s) (done s).
+Definition set_numThreads (s : state) v := ST (central s) (rings s) (steals s) (wr s) v (numRings s) (numSteal s) (threads s) (rz s) (nworkers s) (gens s) (done s).
+Definition set_numRings (s : state) v := ST (central s) (rings s) (steals s) (wr s) (numThreads s) v (numSteal s) (threads s) (rz s) (nworkers s) (gens s) (done s).
+Definition set_numSteal (s : state) v := ST (central s) (rings s) (steals s) (wr s) (numThreads s) (numRings s) v (threads s) (rz s) (nworkers s) (gens s) (done s).
+Definition set_rz (s : state) v := ST (central s) (rings s) (steals s) (wr s) (numThreads s) (numRings s) (numSteal s) (threads s) v (nworkers s) (gens s) (done s).
+Definition set_nworkers (s : state) v := ST (central s) (rings s) (steals s) (wr s) (numThreads s) (numRings s) (numSteal s) (threads s) (rz s) v (gens s) (done s).
+Definition set_gens (s : state) v := ST (central s) (rings s) (steals s) (wr s) (numThreads s) (numRings s) (numSteal s) (threads s) (rz s) (nworkers s) v (done s).
+Definition set_done (s : state) v := ST (central s) (rings s) (steals s) (wr s) (numThreads s) (numRings s) (numSteal s) (threads s) (rz s) (nworkers s) (gens s) v.
 
 Definition with_pend (th : thread) v := TH (trole th) v (held th) (exec th) (tpc th) (pcstk th) (lwd th) (owed th) (credit th) (ringCount th).
 Definition with_held (th : thread) v := TH (trole th) (pend th) v (exec th) (tpc th) (pcstk th) (lwd th) (owed th) (credit th) (ringCount th).
@@ -112,7 +109,7 @@ Inductive event :=
 | EGen (t : id)                              (* harness: task t created by the submitting thread *)
 | ELoadNumThreads (nz : bool) (site : Z)     (* "pool.load.numThreads": site 1 forceEnqueue, 2 scheduleBulkImpl *)
 | EAdd (n site : Z)                          (* "pool.wr.add": 1 forceEnqueue, 2 scheduleBulkEnqueue, 3 scheduleBulkToRings, 4 bulk placed *)
-| ESub (n site : Z)                          (* "pool.wr.sub": 1 executeNext, 2/3 worker flushes, 4 bulk enqueue failure *)
+| ESub (n site : Z)                          (* "pool.wr.sub": 1 executeNext, 2/3 worker flushes, 4 bulk enqueue failure, 5 drain-loop decrement *)
 | EEnqCentral (tok n : Z)                    (* "pool.enq.central" *)
 | ERingPushFail (r : Z)                      (* "pool.ring.push" r 0 *)
 | ERingPushEnd (r : Z)                       (* "pool.ring.push.end" r *)
@@ -158,7 +155,7 @@ Section Model.
 
   Definition init (n0 : Z) : state :=
     ST [] (repeat [] (Z.to_nat n0)) (repeat [] (Z.to_nat (steal_count n0))) 0
-       n0 n0 (steal_count n0) [] RIdle 0 [] [] 0.
+       n0 n0 (steal_count n0) [] RIdle 0 [] [].
 
   Definition pkey (tid : nat) (tok : Z) : Z := if tok =? 0 then Z.of_nat tid else 1000 + tok.
 
@@ -198,7 +195,7 @@ Section Model.
             guard ((j =? Z.of_nat i) && is_none (held th))
             match lget [] i (rings s) with
             | x :: r => guard (x =? t)
-                (Some (set_leaked (setT (set_rings s (lset [] i r (rings s))) tid (with_held th (Some (t, KDrain)))) (leaked s + 1)))
+                (Some (setT (set_rings s (lset [] i r (rings s))) tid (with_held th (Some (t, KExec)))))
             | [] => None
             end
         | PhRings i, ERingDone j =>
@@ -208,7 +205,7 @@ Section Model.
             guard ((j =? Z.of_nat i) && is_none (held th))
             match lget [] i (steals s) with
             | x :: r => guard (x =? t)
-                (Some (set_leaked (setT (set_steals s (lset [] i r (steals s))) tid (with_held th (Some (t, KDrain)))) (leaked s + 1)))
+                (Some (setT (set_steals s (lset [] i r (steals s))) tid (with_held th (Some (t, KExec)))))
             | [] => None
             end
         | PhSteals i, EStealDone j =>
@@ -284,7 +281,7 @@ Section Model.
         guard ((1 <=? n) && (if site =? 1 then pc_eqb (tpc th) PForceAdd && (n =? 1) else pc_free (tpc th)))
           (Some (set_wr (setT s tid (with_pc (with_credit th (credit th + n)) PRun)) (wr s + n)))
     | ESub n site =>
-        if site =? 1 then
+        if (site =? 1) || (site =? 5) then
           guard ((n =? 1) && (1 <=? owed th)) (Some (set_wr (setT s tid (with_owed th (owed th - 1))) (wr s - 1)))
         else if site =? 4 then
           guard ((1 <=? n) && (n <=? credit th)) (Some (set_wr (setT s tid (with_credit th (credit th - n))) (wr s - n)))
